@@ -128,6 +128,11 @@ def op_loop_body_reg(e):
     e.conn.loop_body(lambda c, i: e.Q.H(), stop=5, start=1, step=2, loop_register="R2")
 
 
+def op_loop_body_empty(e):
+    # a body that emits nothing (e.g. one that only acts under a Python-level condition)
+    e.conn.loop_body(lambda c, i: None, stop=3)
+
+
 def op_loop_index(e):
     from netqasm.sdk.qubit import Qubit
     with e.conn.loop(2) as i:
@@ -278,6 +283,7 @@ OPS: List[Tuple[str, Callable, int]] = [   # (name, function, register measureme
     ("if_ez_ctx", op_if_ez_ctx, 0), ("if_nz_cb", op_if_nz_cb, 0), ("if_eq_reg", op_if_eq_reg, 1), ("if_ez_reg", op_if_ez_reg, 1),
     ("loop_ctx", op_loop_ctx, 0), ("loop_body", op_loop_body, 0), ("loop_index", op_loop_index, 0),
     ("loop_ctx_reg", op_loop_ctx_reg, 0), ("loop_ctx_reg_hi", op_loop_ctx_reg_hi, 0), ("loop_body_reg", op_loop_body_reg, 0),
+    ("loop_body_empty", op_loop_body_empty, 0),
     ("until_future", op_until_future, 0), ("until_reg", op_until_reg, 1),
     ("foreach", op_foreach, 0), ("enumerate", op_enumerate, 0),
     ("add_lit", op_add_lit, 0), ("add_future_mod", op_add_future_mod, 0), ("add_reg", op_add_reg, 1), ("add_reg_future", op_add_reg_future, 1),
